@@ -143,7 +143,7 @@ type ContactState struct {
 	Silent   bool
 	MsgCount int
 	LastSaid string // what the person wrote last (people repeat themselves)
-	dirty    bool // replica changed from outside since the session last saw it
+	dirty    bool   // replica changed from outside since the session last saw it
 }
 
 // Call is the record of one engine call (history entry).
